@@ -320,6 +320,9 @@ func peerResetReleaseScenario(a, b epCfg) *Scenario {
 				if _, in := m.As[0].streams[1]; in {
 					m.Observe("stream 1 still registered at A")
 				}
+				if b1 := s1.BufferedAmount(); b1 != 0 {
+					m.Failf("buffered.zero", "stream 1 (unregistered by the peer's reset while its data was in flight): BufferedAmount=%d although everything was acknowledged", b1)
+				}
 				if b2 := s2.BufferedAmount(); b2 != 0 {
 					m.Failf("buffered.zero", "stream 2: BufferedAmount=%d although everything was acknowledged (a SACK that also covered chunks of the reset stream 1 did not release it)", b2)
 				} else if cb == 0 {
